@@ -72,9 +72,18 @@ class C12(Prop):
             # replace the secret by one of a chosen length
             u = p["sessions"][0]["user"]
             eng = p["agent"]["engine_id"]
+            same = None
+            if "priv" in u and rng.random() < 0.2:
+                # the very same octets as both secrets (a digest-sized string is a legal pass phrase,
+                # master key and localized key alike), each under its own key type
+                same = bytes(rng.randrange(256) for _ in range(16 if u["auth"]["alg"] == 1 else 20))
             for part in ("auth", "priv"):
                 if part in u:
-                    pw = pw_bytes(pw_spec(rng, PW_LENGTHS))
+                    if same is not None:
+                        u[part]["key"] = same.hex()
+                        continue
+                    # pass phrases that look like hex / config notation are octets like any other
+                    pw = rng.choice(gen.ODD_PASSWORDS) if rng.random() < 0.25 else pw_bytes(pw_spec(rng, PW_LENGTHS))
                     alg = u["auth"]["alg"]
                     if u[part]["type"] == "password":
                         u[part]["key"] = pw.hex()
@@ -95,7 +104,8 @@ class C12(Prop):
                     fn_ops.append({"fn": "master", "alg": alg, "pw": shared})
                     fn_ops.append({"fn": "master", "alg": 3 - alg, "pw": shared})
                 elif rng.random() < 0.5:
-                    fn_ops.append({"fn": "master", "alg": alg, "pw": pw_spec(rng, FN_LENGTHS)})
+                    odd = rng.choice(gen.ODD_PASSWORDS)
+                    fn_ops.append({"fn": "master", "alg": alg, "pw": {"pat": odd.hex(), "len": len(odd)} if rng.random() < 0.2 else pw_spec(rng, FN_LENGTHS)})
                 else:
                     n = rng.choice([0, 0, 1, 5, 12, 17, 32, 33, 64])
                     fn_ops.append({"fn": "localized", "alg": alg, "pw": pw_spec(rng, PW_LENGTHS), "engine": bytes(rng.randrange(256) for _ in range(n)).hex()})
